@@ -250,7 +250,7 @@ pub fn run(ctx: &Ctx) -> Report {
     //      callbacks are a prefix of the model's list if run_on ends with an error, the whole list
     //      if it returns Ok.
     if !ctx.miri {
-        let n = ctx.n(6000, 300_000);
+        let n = ctx.n(6000, 50_000);
         let r = par_cases(ctx, "C02", "transient-errors", n, |rng, i, rep| {
             let cv = gen_conv(rng, rep);
             let mut case = cv.case();
